@@ -20,7 +20,8 @@ RULE = ("E1: full product of 10 session-key classes (generic, all-zero, last byt
         "configuration, empty, payload with zero run}, and seed-derived extra keys; ('defaultseq', selectors) = every sequence of <= 3 distinct key selectors written one after another with the default (published, here test-substituted) recipient and read back with that selector's private key; ('eph', ...) = every ECC-containing block order x decryptor subset with the ephemeral key forced into the classes X/Y/shared-x with leading 00 / 04 / FF bytes and scalars 1, n-1. Oracle: session key, auth blocks in file order (typed and equal "
         "for opened blocks, byte-identical UnknownAuthBlock otherwise), components; configuration blob[:declared] == original. Distinct = case "
         "tuples; non-trivial = all."
-        " Every case also places a decoy ECC key pair with another selector in the caller's lists (first on write and first read, last on the second read) and reads a third time without MAC checking (same result required). ('threads', a, b, chunk): a write / read of one file is suspended at EVERY line event inside bec2format and the plug-in adapter while an unrelated file is written / read completely in a second thread; both results must be those of the calls on their own.")
+        " Every case also places a decoy ECC key pair with another selector in the caller's lists (first on write and first read, last on the second read) and reads a third time without MAC checking (same result required). ('threads', a, b, chunk): a write / read of one file is suspended at EVERY line event inside bec2format and the plug-in adapter while an unrelated file is written / read completely in a second thread; both results must be those of the calls on their own."
+        " Dimension 'encform': the caller's encryptors as a list or as a one-shot iterator (declared Iterable[Encryptor]); the on-disk CRLF text of a path write is also read through a stream.")
 ASSUMPTIONS = [
     "a customer key inside a BEC2 init block can only sit at position 0 (the 10-byte placeholder); other positions are exercised in C08",
     "ECC recipients are explicit key pairs (EccDecryptor); default recipients are C09's business",
